@@ -129,6 +129,10 @@ type Frame struct {
 	entrySt  *State
 	params   map[string]SV
 	paramSorts map[string]string
+	parent   *Frame
+	callBlock *ssa.BasicBlock
+	curBlock *ssa.BasicBlock
+	loopBody map[*ssa.BasicBlock]map[*ssa.BasicBlock]bool
 	nowrap   bool
 	debugAll map[string][]ssa.Value // source name -> values bound to it (from DebugRef), in execution order
 }
@@ -554,6 +558,30 @@ func (f *Frame) run(args []SV, st *State, guard string) (results []SV, out *Stat
 		}
 		f.loops[h] = li
 	}
+	f.loopBody = map[*ssa.BasicBlock]map[*ssa.BasicBlock]bool{}
+	for e := range back {
+		t, h := fn.Blocks[e[0]], fn.Blocks[e[1]]
+		body := f.loopBody[h]
+		if body == nil {
+			body = map[*ssa.BasicBlock]bool{h: true}
+			f.loopBody[h] = body
+		}
+		var stack []*ssa.BasicBlock
+		if !body[t] {
+			body[t] = true
+			stack = append(stack, t)
+		}
+		for len(stack) > 0 {
+			b := stack[len(stack)-1]
+			stack = stack[:len(stack)-1]
+			for _, p := range b.Preds {
+				if !body[p] {
+					body[p] = true
+					stack = append(stack, p)
+				}
+			}
+		}
+	}
 	order := rpo(fn, back)
 	f.reach = map[*ssa.BasicBlock]string{}
 	f.out = map[*ssa.BasicBlock]*State{}
@@ -591,6 +619,7 @@ func (f *Frame) run(args []SV, st *State, guard string) (results []SV, out *Stat
 			}
 		}
 		f.reach[b] = reach
+		f.curBlock = b
 		if li := f.loops[b]; li != nil {
 			cur = f.enterLoop(li, b, cur, reach)
 		}
@@ -695,6 +724,21 @@ func (f *Frame) phiEdgeVals(b *ssa.BasicBlock, phi *ssa.Phi, wantBack bool, st *
 	return
 }
 
+// enclosingLoopKeys lists the loops (in this frame and in the frames of its callers) whose body contains
+// block b (respectively the call site).
+func (f *Frame) enclosingLoopKeys(b *ssa.BasicBlock, self bool) []string {
+	var out []string
+	for h, body := range f.loopBody {
+		if body[b] {
+			out = append(out, f.loopKey(h))
+		}
+	}
+	if f.parent != nil && f.callBlock != nil {
+		out = append(out, f.parent.enclosingLoopKeys(f.callBlock, true)...)
+	}
+	return out
+}
+
 func (f *Frame) loopKey(b *ssa.BasicBlock) string {
 	return fmt.Sprintf("%s#%d", f.prefix, b.Index)
 }
@@ -727,14 +771,7 @@ func (f *Frame) enterLoop(li *loopInfo, b *ssa.BasicBlock, entry *State, reach s
 	key := f.loopKey(b)
 	var names []string
 	if x.discover {
-		for k := range entry.heap {
-			names = append(names, k)
-		}
-		for k := range c.heapSort {
-			if _, ok := entry.heap[k]; !ok {
-				names = append(names, k)
-			}
-		}
+		// discovery: nothing is havocked; the back edges record which heap arrays the body changes
 	} else {
 		for k := range x.modsets[key] {
 			if _, ok := c.heapSort[k]; !ok {
@@ -824,8 +861,25 @@ func (f *Frame) backEdgeObligations(li *loopInfo, from *ssa.BasicBlock, st *Stat
 			x.modsets[key] = ms
 		}
 		for k, t := range st.heap {
+			if _, known := c.heapSort[k]; !known {
+				continue
+			}
 			if li.headSt.get(k) != t {
 				ms[k] = true
+			}
+		}
+		// everything an inner (or inlined callee's) loop changes is also changed by the loops around it
+		for _, ek := range f.enclosingLoopKeys(b, true) {
+			if ek == key {
+				continue
+			}
+			em := x.modsets[ek]
+			if em == nil {
+				em = map[string]bool{}
+				x.modsets[ek] = em
+			}
+			for k := range ms {
+				em[k] = true
 			}
 		}
 		return
@@ -1105,7 +1159,15 @@ func (f *Frame) execInstr(in ssa.Instruction, st *State, g string) {
 		c.note("unsupported: channel send in %s", f.fn)
 	case *ssa.Select:
 		c.note("abstraction: select in %s modelled as non-deterministic choice", f.fn)
-		f.env[i] = f.havocValue(f.prefix+"/"+i.Name(), i.Type(), st, g)
+		hv := f.havocValue(f.prefix+"/"+i.Name(), i.Type(), st, g)
+		if len(hv.Tup) > 0 && hv.Tup[0].T != "" {
+			lo := 0
+			if !i.Blocking {
+				lo = -1
+			}
+			c.assume(g, fmt.Sprintf("(and (<= %d %s) (< %s %d))", lo, hv.Tup[0].T, hv.Tup[0].T, len(i.States)))
+		}
+		f.env[i] = hv
 	case *ssa.SliceToArrayPointer:
 		x := f.val(i.X, st)
 		at := i.Type().Underlying().(*types.Pointer).Elem().Underlying().(*types.Array)
@@ -1130,6 +1192,9 @@ func (x *Exec) isRootMayPanic() bool {
 }
 
 func (f *Frame) sweepTags() []string {
+	if !f.isRoot && !inRepo(f.fn) {
+		return []string{"-"} // obligations inside inlined library code are not claimed by any property
+	}
 	if f.x.root != nil && f.x.root.contract != nil {
 		return f.x.root.contract.Sweep
 	}
